@@ -269,9 +269,11 @@ class HttpBase(ServerBase):
 
         # this makes sure similar addresses with patterns are evaluated after
         # addresses with wildcards, which puts the more specific addresses to
-        # the front.
+        # the front. patterns with the same address are told apart by host and
+        # verb (those that give one come first) so that the order never depends
+        # on the iteration order of the set.
         self._http_patterns = list(reversed(sorted(self._http_patterns,
-                                           key=lambda x: (x.address, x.host) )))
+                 key=lambda x: (x.address, x.host or b'', x.verb or '') )))
 
     @classmethod
     def get_patt_verb(cls, patt):
